@@ -87,6 +87,8 @@ def build(run):
         out += [{"sid": sid, "md": mdi, "itype": "dx", "dom": 2, "cd": None} for sid in ("everywhere", 1) for mdi in (0, 1)]
         # subdomain ids that are numbers.Integral without being Python ints (entries of a mesh tag array)
         out += [{"sid": sid, "md": mdi, "itype": "dx", "dom": 1, "cd": None} for sid in (np.int32(1), (np.int64(2), 3), np.int64(3)) for mdi in (0, 1)]
+        # the subdomain number 0 (a legal id like any other, though falsy in Python), alone, in tuples, next to 'everywhere' integrals, as a numpy integer
+        out += [{"sid": sid, "md": mdi, "itype": it, "dom": 1, "cd": None} for sid in (0, (0, 1), (0,), np.int64(0)) for mdi in (0, 1) for it in ITYPES]
         out += [{"sid": sid, "md": mdi, "itype": "dpatch", "dom": 1, "cd": None} for sid in ("everywhere", 1, (1, 2)) for mdi in (0, 1)]
         out += [{"sid": sid, "md": mdi, "itype": "dx", "dom": 1, "cd": k} for sid in ("everywhere", 1, (1, 2)) for mdi in (0, 1) for k in (0, 1)]
         # nested coordinate derivatives (second shape derivatives, in the same and in two different directions)
